@@ -141,6 +141,33 @@ func c07Oracle(r *SeqRun) []Viol {
 	return out
 }
 
+// c07Reference compares the map with the reference map + FIFO of C06; entries the reference
+// still holds although their TTL has elapsed may or may not have been swept already.
+func c07Reference(r *SeqRun) []Viol {
+	m, _ := c06Replay(r.Events)
+	if m.Outside {
+		return nil
+	}
+	now := r.Post.ClockNs
+	stored := map[int64]bool{}
+	for _, e := range r.Post.Store {
+		stored[int64(e.Key)] = true
+	}
+	for k, e := range m.M {
+		if e.exp != 0 && now > e.exp && !stored[k] {
+			delete(m.M, k) // expired and reclaimed: fine
+		}
+	}
+	var out []Viol
+	for _, v := range c06CompareMap(r, m, "C07") {
+		if v.Key == "C07/map-lost-entry" {
+			v.Key = "C07/item-hidden-before-its-ttl-elapsed"
+		}
+		out = append(out, v)
+	}
+	return out
+}
+
 func c07Seq(tier string) []SeqJob {
 	var out []SeqJob
 	mk := func(name string, keys []int, ttls []int64, depth int, secs float64) {
@@ -166,7 +193,30 @@ func c07Seq(tier string) []SeqJob {
 		alpha = append(alpha, Op{K: "iter"}, Op{K: "advance", N: 1000}, Op{K: "advance", N: 5000}, Op{K: "sweep"}, Op{K: "advance", N: 400})
 		spec := &SeqSpec{Cfg: Cfg{NumCounters: 16, MaxCost: 4, BufferItems: 2, SetBuf: 2, TTLTick: 2, BucketSecs: 1, KeyHash: hash, ShouldUpdate: su}, MaxDepth: depth,
 			Alphabet: func(r *SeqRun) []Op { return alpha }, Oracle: c07Oracle}
+		if hash == "" && su == "" {
+			// everything fits (<= 2 keys of cost 1, MaxCost 4): the cache must also equal the
+			// reference map of C06 extended by "a sweep removes exactly the expired entries" - an
+			// entry may leave the map only by a Del, an overwrite or its OWN elapsed TTL
+			spec.Oracle = func(r *SeqRun) []Viol { return append(c07Oracle(r), c07Reference(r)...) }
+			spec.Abstract = c06Abstract
+		}
 		out = append(out, SeqJob{Name: name, Spec: spec, Seconds: secs})
+	}
+	// lean alphabet on one key (TTL / no TTL writes, reads, a clock jump past the TTL, drain) so
+	// that longer histories are reached: an expired entry that is read and then overwritten
+	// under applier lag, a no-TTL write after the applier finished an earlier TTL overwrite, ...
+	lean := func(name string, depth int, secs float64) {
+		alpha := []Op{{K: "setttl", Key: 1, Cost: 1, TTL: 1000}, {K: "set", Key: 1, Cost: 1}, {K: "get", Key: 1}, {K: "getttl", Key: 1},
+			{K: "advance", N: 5000}, {K: "drain"}, {K: "setttl", Key: 1, Cost: 1, TTL: 7000}}
+		spec := &SeqSpec{Cfg: Cfg{NumCounters: 16, MaxCost: 4, BufferItems: 2, SetBuf: 3, TTLTick: 2, BucketSecs: 1}, MaxDepth: depth,
+			Alphabet: func(r *SeqRun) []Op { return alpha }, Abstract: c06Abstract,
+			Oracle: func(r *SeqRun) []Viol { return append(c07Oracle(r), c07Reference(r)...) }}
+		out = append(out, SeqJob{Name: name, Spec: spec, Seconds: secs})
+	}
+	if tier == "quick" {
+		lean("seq/lean/1key/depth7", 7, 40)
+	} else {
+		lean("seq/lean/1key/depth10", 10, 560)
 	}
 	if tier == "quick" {
 		mk("seq/1key/ttl{-1,1,1.5,3,7}s/depth5", []int{1}, []int64{-1000, 1000, 1500, 3000, 7000}, 5, 40)
